@@ -1,0 +1,19 @@
+//go:build verif
+
+package client
+
+// Contracts for govc (see /verif/DESIGN.md).  This file is comment-only and is compiled only with -tags=verif.
+
+// ---- C05: lock discipline (ghost lock state; every access to a guarded field in the package is an obligation) ----
+//@ guarded Storage.index by mu
+//@ guarded Storage.runtimeIndex by mu
+
+//@ func (s *Storage) FindByMAC(mac net.HardwareAddr) (p *Persistent, ok bool)
+//@   requires held(s.mu)
+//@   modifies *
+//@ func (s *Storage) setWHOISInfo(ctx context.Context, ip netip.Addr, wi *whois.Info)
+//@   requires held(s.mu)
+//@   modifies *
+//@ func (s *Storage) addFromHostsFile$1(addr netip.Addr, names []string) (cont bool)
+//@   requires held(s.mu)
+//@   modifies *
